@@ -28,6 +28,10 @@ pub enum Op {
     Antiderivative((f64, f64)),
     RoundTrip,
     Neg,
+    /// sum or difference through one of the binary operator forms - variant & 1: subtraction, & 2: borrowed left operand,
+    /// & 4: borrowed right operand - with the right operand carrying the tolerance tol * 10^exp: the result is formed
+    /// under the left operand's tolerance
+    AddVar(Vec<(f64, f64)>, u8, i8),
 }
 
 #[derive(Clone, Debug, Serialize, Deserialize)]
@@ -260,6 +264,19 @@ fn run_field<N: Fld>(case: &Case, mut o: Obs) -> Outcome {
                     q2.set_tolerance(t).unwrap();
                 }
                 Op::Neg => q2 = -q2,
+                Op::AddVar(v, var, e) => {
+                    let rhs = mk::<N>(&v.iter().map(z).collect::<Vec<_>>(), tol * 10f64.powi(*e as i32));
+                    q2 = match var & 7 {
+                        0 => q2 + rhs,
+                        1 => q2 - rhs,
+                        2 => &q2 + rhs,
+                        3 => &q2 - rhs,
+                        4 => q2 + &rhs,
+                        5 => q2 - &rhs,
+                        6 => &q2 + &rhs,
+                        _ => &q2 - &rhs,
+                    };
+                }
             }
             q2
         });
@@ -351,6 +368,19 @@ fn run_field<N: Fld>(case: &Case, mut o: Obs) -> Outcome {
                     m.iter_mut().for_each(|t| *t = -*t);
                 }
             }
+            Op::AddVar(v, var, _) => {
+                if m.len() < v.len() {
+                    m.resize(v.len(), c(0.0, 0.0));
+                }
+                for (k, t) in v.iter().enumerate() {
+                    if var & 1 == 0 {
+                        m[k] += z(t);
+                    } else {
+                        m[k] -= z(t);
+                    }
+                }
+                o.label("binary-operator-mixed-tolerance");
+            }
         }
         if absent_purge {
             special = true;
@@ -365,6 +395,10 @@ fn run_field<N: Fld>(case: &Case, mut o: Obs) -> Outcome {
             Err(Caught::Budget(_)) => return o.fail("unexpected budget signal"),
         };
         q = q2;
+        // no operation of the history changes the tolerance the polynomial was given
+        if q.get_tolerance() != tol {
+            return o.fail(format!("after step {step} {op:?}: get_tolerance() = {:e}, the polynomial was created with {tol:e}", q.get_tolerance()));
+        }
         // compare as coefficient maps
         let upto = m.len().max(q.order() + 1) + 2;
         let g = coefs(&q, upto);
@@ -459,6 +493,7 @@ fn op() -> BoxedStrategy<Op> {
         1 => val().prop_map(Op::Antiderivative),
         1 => Just(Op::RoundTrip),
         1 => Just(Op::Neg),
+        2 => (coef_vec(12), 0u8..8, prop_oneof![Just(-3i8), Just(0i8), Just(3i8)]).prop_map(|(v, var, e)| Op::AddVar(v, var, e)),
     ]
     .boxed()
 }
@@ -495,7 +530,7 @@ pub fn run(opts: &Opts) -> i32 {
     }
     spec.cases = opts.tier.pick(150_000, 4_000_000);
     spec.essential = vec![("purge-absent", 0.2), ("purge-leading-term", 0.1), ("long-history", 0.3), ("complex", 0.3), ("history-fft-product", 0.2), ("short-panel-resolved", 0.5)];
-    spec.rule = "generated: polynomials of length 1..31 (real/complex, shapes as C11), evaluation points |x|<=2, integration points in [-2,2] plus short panels [a, a+d] with d = half the polynomial's zero tolerance, 0.9e-10 and 1e-13 (integral = F(a+d)-F(a) within the rounding bound, additivity), and histories vec(op, 0..40) over {set_coefficient(p<=40), purge_coefficient(p<=45 absolute, and relative to the current end: leading term, one/two/three past the end), purge_leading, +-scalar, *-/scalar, +-polynomial, *linear, *polynomial of degree 2-6 (FFT path, judged within the C11 noise bound), derivative, antiderivative(c), from_slice(get_coefficients()), negation}; oracle: naive power-sum evaluation, term-wise calculus, and a reference coefficient map replicated with the same single IEEE operations, compared after every step for all powers up to max(len)+2; no step may panic. Non-trivial = history with a purge of an absent power, or >= 10 operations. Distinct = distinct case JSON.".into();
+    spec.rule = "generated: polynomials of length 1..31 (real/complex, shapes as C11), evaluation points |x|<=2, integration points in [-2,2] plus short panels [a, a+d] with d = half the polynomial's zero tolerance, 0.9e-10 and 1e-13 (integral = F(a+d)-F(a) within the rounding bound, additivity), and histories vec(op, 0..40) over {set_coefficient(p<=40), purge_coefficient(p<=45 absolute, and relative to the current end: leading term, one/two/three past the end), purge_leading, +-scalar, *-/scalar, +-polynomial (compound assignment, and all eight owned/borrowed binary forms with the right operand carrying the tolerance x 1e-3, x 1 or x 1e3), *linear, *polynomial of degree 2-6 (FFT path, judged within the C11 noise bound), derivative, antiderivative(c), from_slice(get_coefficients()), negation}; oracle: naive power-sum evaluation, term-wise calculus, and a reference coefficient map replicated with the same single IEEE operations, compared after every step for all powers up to max(len)+2; get_tolerance() stays the tolerance the polynomial was given after every step; no step may panic. Non-trivial = history with a purge of an absent power, or >= 10 operations. Distinct = distinct case JSON.".into();
     spec.max_shrink_iters = 4000;
     run_spec(spec, opts)
 }
